@@ -431,3 +431,7 @@ package base
 //@ readers[C20] base.BuiltinClasses ti/builtin.loadBuiltinFromJSON,(*ti/base.T).IsClassIdentifier,(*ti/base.T).IsConstIdentifier
 //@ func base.BuiltinClasses
 //@   witness frame:readers#0 "class Base\n  def foo\n    1\n  end\nend\nclass A < Base\nend\na = A.new\nx = a.foo\ndbtp x\n" expect "not defined"
+
+//@ # ---- C19: an overload extends a method of the very same class ----
+//@ spec ownMethod(frame, class, method) = TFrame[methodTFrameKey(frame, class, method, false)]
+//@ spec ownClassMethod(frame, class, method) = TFrame[classMethodTFrameKey(frame, class, method, false)]
